@@ -295,8 +295,11 @@ def run(ctx):
             history = []
             n = 0
             # one engine in eight lives in a process whose state is not the default one: warnings are errors, the library logs at
-            # DEBUG, other NumPy print options, or the library computes in single precision (both modes do, then)
-            envname = (ENVIRONMENTS + ["float32"])[(i // 8) % (len(ENVIRONMENTS) + 1)] if i % 8 == 5 else None
+            # DEBUG, other NumPy print options.  (Single precision is left to the stream further down: with generated terms an
+            # input that sits exactly on a step of a membership function is compared in single precision when it arrives in an
+            # array and in double precision when it arrives as a float - NumPy's promotion rules - so the two modes legitimately
+            # land on different sides of the step)
+            envname = ENVIRONMENTS[(i // 8) % len(ENVIRONMENTS)] if i % 8 == 5 else None
             held.clear()
             for h in range(ctx.scale(3, 4) if rnd.random() < 0.7 else 1):
                 n = n if (n > 1 and rnd.random() < 0.45) else rnd.choice([1, 2, 2, 3, 5, 8, maxn])
